@@ -35,6 +35,8 @@ type vC12 struct {
 	curTask   int
 	arrival   []string // ghost FIFO of enqueued peers
 	left      map[string]bool
+	intro     int // receivers that have appeared so far
+	lastTick  bool
 }
 
 func vNewC12(maxRecv int, peers []string) *vC12 {
@@ -183,19 +185,45 @@ func (m *vC12) check(ev string) {
 	_ = ev
 }
 
+// step: one event from the menu of enabled events. Receivers are symmetric, so an event may name only
+// a receiver that has already appeared or the first one that has not; transfer ends are listed per
+// running task; an idle tick directly after a tick adds nothing.
 func (m *vC12) step() {
 	s := m.s
-	np := len(m.peers)
-	ev := vChoice("ev", 3*np+2)
-	switch {
-	case ev < np:
-		p := m.peers[ev]
+	np := m.intro + 1
+	if np > len(m.peers) {
+		np = len(m.peers)
+	}
+	type evt struct{ kind, arg int }
+	var menu []evt
+	for p := 0; p < np; p++ {
+		menu = append(menu, evt{0, p}, evt{1, p})
+		if s.receivers[m.peers[p]] != nil {
+			menu = append(menu, evt{2, p})
+		}
+	}
+	for k := 0; k < m.started; k++ {
+		if !m.ended[k] {
+			menu = append(menu, evt{3, k})
+		}
+	}
+	if !m.lastTick {
+		menu = append(menu, evt{4, 0})
+	}
+	e := menu[vChoice("ev", len(menu))]
+	m.lastTick = e.kind == 4
+	if e.kind <= 2 && e.arg == m.intro && m.intro < len(m.peers) {
+		m.intro++
+	}
+	switch e.kind {
+	case 0:
+		p := m.peers[e.arg]
 		s.handlePeerJoined(p)
 		m.left[p] = false
 		m.settle()
 		m.check("join")
-	case ev < 2*np:
-		p := m.peers[ev-np]
+	case 1:
+		p := m.peers[e.arg]
 		before := m.snapshotActive()
 		wasQueued := m.inQueue(p) > 0
 		wasActive := s.active[p] != nil
@@ -208,8 +236,8 @@ func (m *vC12) step() {
 		m.noteStarts(before)
 		m.settle()
 		m.check("accept")
-	case ev < 3*np:
-		p := m.peers[ev-2*np]
+	case 2:
+		p := m.peers[e.arg]
 		before := m.snapshotActive()
 		// ghost: the task that currently owns p's slot is cancelled by the leave
 		if s.active[p] != nil {
@@ -225,11 +253,9 @@ func (m *vC12) step() {
 		m.noteStarts(before)
 		m.settle()
 		m.check("leave")
-	case ev == 3*np:
+	case 3:
 		// a running (or cancelled, still draining) task returns
-		vAssume(m.started > 0)
-		k := vChoice("task", m.started)
-		vAssume(!m.ended[k])
+		k := e.arg
 		m.fail[k] = vBool("fail")
 		if m.cancelled[k] {
 			m.fail[k] = true // a cancelled transfer returns an error
